@@ -103,7 +103,9 @@ func GenByteString(t *rapid.T, label string) string {
 	}
 }
 
-var identPool = []string{"app", "env", "host", "level", "a", "b", "status", "method", "x_1", "_u", "count", "rate", "bytes", "ip", "duration", "sum", "topk", "vector", "sort", "avg_over_time", "label_replace", "duration_seconds"}
+var identPool = []string{"app", "env", "host", "level", "a", "b", "status", "method", "x_1", "_u", "count", "rate", "bytes", "ip", "duration", "sum", "topk", "vector", "sort", "avg_over_time", "label_replace", "duration_seconds",
+	// names that are function words in another letter case are ordinary names
+	"Duration", "Count", "Bytes", "IP", "Rate", "Sum", "Max", "TopK", "Avg_Over_Time"}
 
 func genIdent(t *rapid.T, label string) string {
 	return rapid.SampledFrom(identPool).Draw(t, label)
